@@ -26,6 +26,12 @@ RULE = ("(attestation file, public-keys file, root of trust) triples for the Led
         "conjunction (by construction) and then every value it prints must equal what the "
         "generator put at the documented offset; every other triple must raise. distinct = "
         "(platform, framing, variant); non-trivial = all")
+RULE_ADDED = (
+              'Also: half of the verifications through adm_ledger / adm_sgx main(); forged and '
+              'bit-flipped chains with extra / repeated targets; UD values and keys hashes that read '
+              'on as text after the header; time zones and near-boundary root validity; a third of '
+              'the shards under python -O ')
+RULE = RULE + " " + RULE_ADDED.strip()
 ASSUMPTIONS = [
     "stdout of the commands is parsed by label ('UD value:', 'Hash:', ...)",
     "Ledger UI message length is not constrained by the statement: over-long UI messages are "
